@@ -1,4 +1,4 @@
-//go:build verif
+//go:build verif && verif_buffers
 
 package scramblesuit
 
@@ -13,27 +13,4 @@ func VerifBuffered(conn net.Conn) (undecoded, decoded int, ok bool) {
 		return 0, 0, false
 	}
 	return c.receiveBuffer.Len(), c.receiveDecodedBuffer.Len(), true
-}
-
-// VerifStoreTicket loads the ticket store of stateDir exactly as ClientFactory
-// does and stores a ticket (32-byte key | 112-byte ticket) for addr, as the
-// client does when the server sends a NewTicket packet.
-func VerifStoreTicket(stateDir string, addr net.Addr, raw []byte) error {
-	s, err := loadTicketStore(stateDir)
-	if err != nil {
-		return err
-	}
-	s.storeTicket(addr, raw)
-	return nil
-}
-
-// VerifGetTicket loads the ticket store of stateDir and takes the ticket for
-// addr out of it, as the client does at the start of a handshake.
-func VerifGetTicket(stateDir string, addr net.Addr) (found bool, err error) {
-	s, err := loadTicketStore(stateDir)
-	if err != nil {
-		return false, err
-	}
-	t, err := s.getTicket(addr)
-	return t != nil, err
 }
